@@ -7,24 +7,43 @@
 //! Suspend/Resume at random instants; budgets C−1, C, C+1 around the measured cost C.
 //!
 //! Line protocol (model side: lean/CkbVerif/Driver/C05.lean):
-//!   prog <name> <cost:code,...>        per script group, measured with unlimited one-shot runs
-//!   verify <B>                          -> ok <cycles> | exceeded | fail <code> | other
+//!   prog <name> <cost:code[:t],...>    per script group (groups() order: lock groups, then type groups),
+//!                                       measured with unlimited one-shot runs; for a failing group the
+//!                                       cost is the cycles consumed up to the failure; `:t` marks the
+//!                                       built-in TYPE_ID system script (the model takes its cost from
+//!                                       script/src/type_id.rs through the translator and answers
+//!                                       `typeid-cost-mismatch` if the measurement differs)
+//!   verify <B>                          -> ok <cycles> | exceeded <limit> @<group> | fail <code> @<group>
+//!                                       | other | ...   (error class AND payload: the limit carried by
+//!                                       ExceededMaximumCycles, the exit code, the group the error is
+//!                                       attributed to)
+//!   rv <L>                              one resumable_verify(L) -> ok <cycles> | suspended <group> | error
+//!   resume <L1> <L2> <idx> <p>          resumable_verify(L1) suspended in group idx with p cycles consumed
+//!                                       inside it (observed), then ONE resume_from_state(state, L2)
+//!                                       -> ok <cycles> | suspended <group> | error
+//!   ctx-verify <B>                      ContextualTransactionVerifier::verify(B, false) (time-relative,
+//!                                       capacity, scripts, fee) -> as verify
+//!   ctx-complete <L> <B> <idx> <p>      state from resumable_verify(L), then
+//!                                       ContextualTransactionVerifier::complete(B, false, state)
 //!   chunks <L1,L2,...>                  resumable_verify(L1), resume_from_state(L2) ... (last limit
 //!                                       repeated) until completed -> final result
 //!   complete <L> <B> <idx> <p>          resumable_verify(L) suspended in group idx with p cycles
 //!                                       consumed inside it (observed), then complete(state, B)
+//!                                       -> ok <cycles> | exceeded <limit> | fail <code> | ...
 //!   signal <B> <idx> <p>                not generated (pause points are not observable); signal runs
 //!                                       are `note` lines checked by the oracle only
 //!   note <text>                         -> ok
 use crate::common::*;
-use ckb_chain_spec::consensus::{Consensus, ConsensusBuilder};
+use ckb_chain_spec::consensus::{Consensus, ConsensusBuilder, TYPE_ID_CODE_HASH};
+use ckb_script::types::ScriptGroup;
 use ckb_script::{ChunkCommand, ScriptError, ScriptVersion, TransactionScriptError, TransactionScriptsVerifier, TransactionState, TxVerifyEnv, VerifyResult};
-use ckb_traits::{CellDataProvider, ExtensionProvider, HeaderProvider};
+use ckb_traits::{CellDataProvider, EpochProvider, ExtensionProvider, HeaderFields, HeaderFieldsProvider, HeaderProvider};
 use ckb_types::bytes::Bytes;
 use ckb_types::core::cell::{CellMeta, CellMetaBuilder, ResolvedTransaction};
-use ckb_types::core::{Capacity, EpochNumberWithFraction, HeaderView, TransactionBuilder, TransactionInfo};
+use ckb_types::core::{BlockExt, BlockNumber, Capacity, EpochExt, EpochNumberWithFraction, HeaderView, ScriptHashType, TransactionBuilder, TransactionInfo};
 use ckb_types::packed::{self, Byte32, CellInput, CellOutput, OutPoint, Script};
 use ckb_types::prelude::*;
+use ckb_verification::ContextualTransactionVerifier;
 use std::sync::Arc;
 
 #[derive(Clone)]
@@ -47,8 +66,28 @@ impl ExtensionProvider for NoData {
         None
     }
 }
+impl HeaderFieldsProvider for NoData {
+    fn get_header_fields(&self, _hash: &Byte32) -> Option<HeaderFields> {
+        None
+    }
+}
+impl EpochProvider for NoData {
+    fn get_epoch_ext(&self, _block_header: &HeaderView) -> Option<EpochExt> {
+        None
+    }
+    fn get_block_hash(&self, _number: BlockNumber) -> Option<Byte32> {
+        None
+    }
+    fn get_block_ext(&self, _block_hash: &Byte32) -> Option<BlockExt> {
+        None
+    }
+    fn get_block_header(&self, _hash: &Byte32) -> Option<HeaderView> {
+        None
+    }
+}
 
 type Verifier = TransactionScriptsVerifier<NoData>;
+type Ctx = ContextualTransactionVerifier<NoData>;
 
 fn load(name: &str) -> Bytes {
     if name == "always_success" {
@@ -68,43 +107,80 @@ fn code_cell(data: Bytes, k: u32) -> (CellMeta, Byte32) {
     (meta, h)
 }
 
-/// a program set: (lock program, other programs that must be in the cell deps, version, extra type-script programs on outputs)
+/// a transaction shape: input 0 is locked by `lock`, one more input per entry of `locks2` (each a
+/// lock group of its own), one output per entry of `types` carrying that type script. A type entry
+/// is a program name, or the built-in TYPE_ID system script (script/src/type_id.rs):
+///   tid:ok       created here, args = blake2b(first input || output index)      -> passes
+///   tid:in       also the type script of input 0 (a transfer: no hash check)    -> passes
+///   tid:badargs  31-byte args                                                   -> ERROR_ARGS (-1)
+///   tid:badhash  32 bytes that are not the creation hash                        -> ERROR_INVALID_INPUT_HASH (-3)
+///   tid:dup      the same script as the previous output (two cells, one group)  -> ERROR_TOO_MANY_CELLS (-2)
+/// `deps`: other programs that must be in the cell deps.
 struct Prog {
     name: &'static str,
     lock: &'static str,
     deps: &'static [&'static str],
     version: ScriptVersion,
     types: &'static [&'static str],
+    locks2: &'static [&'static str],
 }
 
 const PROGS: &[Prog] = &[
-    Prog { name: "as-v0", lock: "always_success", deps: &[], version: ScriptVersion::V0, types: &[] },
-    Prog { name: "as-v1", lock: "always_success", deps: &[], version: ScriptVersion::V1, types: &[] },
-    Prog { name: "as-v2", lock: "always_success", deps: &[], version: ScriptVersion::V2, types: &[] },
-    Prog { name: "as-3groups", lock: "always_success", deps: &[], version: ScriptVersion::V2, types: &["always_success", "vm_version_2"] },
-    Prog { name: "failure", lock: "always_failure", deps: &[], version: ScriptVersion::V1, types: &[] },
-    Prog { name: "as-then-failure", lock: "always_success", deps: &[], version: ScriptVersion::V1, types: &["always_failure"] },
-    Prog { name: "strcat", lock: "spawn_caller_strcat", deps: &["spawn_callee_strcat"], version: ScriptVersion::V2, types: &[] },
-    Prog { name: "strcat-wrap", lock: "spawn_caller_strcat_wrap", deps: &["spawn_caller_strcat", "spawn_callee_strcat"], version: ScriptVersion::V2, types: &[] },
-    Prog { name: "spawn-cycles", lock: "spawn_caller_current_cycles", deps: &["spawn_callee_current_cycles"], version: ScriptVersion::V2, types: &[] },
-    Prog { name: "spawn-exec", lock: "spawn_caller_exec", deps: &["spawn_callee_exec_caller", "spawn_callee_exec_callee"], version: ScriptVersion::V2, types: &[] },
-    Prog { name: "spawn-recursive", lock: "spawn_recursive", deps: &[], version: ScriptVersion::V2, types: &[] },
-    Prog { name: "spawn-17", lock: "spawn_create_17_spawn", deps: &[], version: ScriptVersion::V2, types: &[] },
-    Prog { name: "spawn-io-cycles", lock: "spawn_io_cycles", deps: &[], version: ScriptVersion::V2, types: &[] },
-    Prog { name: "spawn-huge-swap", lock: "spawn_huge_swap", deps: &[], version: ScriptVersion::V2, types: &[] },
-    Prog { name: "spawn-saturate", lock: "spawn_saturate_memory", deps: &[], version: ScriptVersion::V2, types: &[] },
-    Prog { name: "exec-cell", lock: "exec_caller_from_cell_data", deps: &["exec_callee"], version: ScriptVersion::V1, types: &[] },
-    Prog { name: "exec-cell-v2", lock: "exec_caller_from_cell_data", deps: &["exec_callee"], version: ScriptVersion::V2, types: &[] },
-    Prog { name: "current-cycles", lock: "current_cycles", deps: &[], version: ScriptVersion::V1, types: &[] },
-    Prog { name: "vm-version", lock: "vm_version", deps: &[], version: ScriptVersion::V1, types: &[] },
-    Prog { name: "vm-version-2", lock: "vm_version_2", deps: &[], version: ScriptVersion::V2, types: &[] },
-    Prog { name: "mop-adc", lock: "mop_adc_lock", deps: &[], version: ScriptVersion::V1, types: &[] },
-    Prog { name: "cpop", lock: "cpop_lock", deps: &[], version: ScriptVersion::V1, types: &[] },
-    Prog { name: "load-arith", lock: "load_arithmetic", deps: &[], version: ScriptVersion::V1, types: &[] },
-    Prog { name: "spawn-then-as", lock: "spawn_caller_strcat", deps: &["spawn_callee_strcat"], version: ScriptVersion::V2, types: &["always_success", "spawn_recursive"] },
+    Prog { name: "as-v0", lock: "always_success", deps: &[], version: ScriptVersion::V0, types: &[], locks2: &[] },
+    Prog { name: "as-v1", lock: "always_success", deps: &[], version: ScriptVersion::V1, types: &[], locks2: &[] },
+    Prog { name: "as-v2", lock: "always_success", deps: &[], version: ScriptVersion::V2, types: &[], locks2: &[] },
+    Prog { name: "as-3groups", lock: "always_success", deps: &[], version: ScriptVersion::V2, types: &["always_success", "vm_version_2"], locks2: &[] },
+    Prog { name: "failure", lock: "always_failure", deps: &[], version: ScriptVersion::V1, types: &[], locks2: &[] },
+    Prog { name: "as-then-failure", lock: "always_success", deps: &[], version: ScriptVersion::V1, types: &["always_failure"], locks2: &[] },
+    Prog { name: "strcat", lock: "spawn_caller_strcat", deps: &["spawn_callee_strcat"], version: ScriptVersion::V2, types: &[], locks2: &[] },
+    Prog { name: "strcat-wrap", lock: "spawn_caller_strcat_wrap", deps: &["spawn_caller_strcat", "spawn_callee_strcat"], version: ScriptVersion::V2, types: &[], locks2: &[] },
+    Prog { name: "spawn-cycles", lock: "spawn_caller_current_cycles", deps: &["spawn_callee_current_cycles"], version: ScriptVersion::V2, types: &[], locks2: &[] },
+    Prog { name: "spawn-exec", lock: "spawn_caller_exec", deps: &["spawn_callee_exec_caller", "spawn_callee_exec_callee"], version: ScriptVersion::V2, types: &[], locks2: &[] },
+    Prog { name: "spawn-recursive", lock: "spawn_recursive", deps: &[], version: ScriptVersion::V2, types: &[], locks2: &[] },
+    Prog { name: "spawn-17", lock: "spawn_create_17_spawn", deps: &[], version: ScriptVersion::V2, types: &[], locks2: &[] },
+    Prog { name: "spawn-io-cycles", lock: "spawn_io_cycles", deps: &[], version: ScriptVersion::V2, types: &[], locks2: &[] },
+    Prog { name: "spawn-huge-swap", lock: "spawn_huge_swap", deps: &[], version: ScriptVersion::V2, types: &[], locks2: &[] },
+    Prog { name: "spawn-saturate", lock: "spawn_saturate_memory", deps: &[], version: ScriptVersion::V2, types: &[], locks2: &[] },
+    Prog { name: "exec-cell", lock: "exec_caller_from_cell_data", deps: &["exec_callee"], version: ScriptVersion::V1, types: &[], locks2: &[] },
+    Prog { name: "exec-cell-v2", lock: "exec_caller_from_cell_data", deps: &["exec_callee"], version: ScriptVersion::V2, types: &[], locks2: &[] },
+    Prog { name: "current-cycles", lock: "current_cycles", deps: &[], version: ScriptVersion::V1, types: &[], locks2: &[] },
+    Prog { name: "vm-version", lock: "vm_version", deps: &[], version: ScriptVersion::V1, types: &[], locks2: &[] },
+    Prog { name: "vm-version-2", lock: "vm_version_2", deps: &[], version: ScriptVersion::V2, types: &[], locks2: &[] },
+    Prog { name: "mop-adc", lock: "mop_adc_lock", deps: &[], version: ScriptVersion::V1, types: &[], locks2: &[] },
+    Prog { name: "cpop", lock: "cpop_lock", deps: &[], version: ScriptVersion::V1, types: &[], locks2: &[] },
+    Prog { name: "load-arith", lock: "load_arithmetic", deps: &[], version: ScriptVersion::V1, types: &[], locks2: &[] },
+    Prog { name: "spawn-then-as", lock: "spawn_caller_strcat", deps: &["spawn_callee_strcat"], version: ScriptVersion::V2, types: &["always_success", "spawn_recursive"], locks2: &[] },
+    // the built-in TYPE_ID system script as a group of its own
+    Prog { name: "tid-create", lock: "always_success", deps: &[], version: ScriptVersion::V2, types: &["tid:ok"], locks2: &[] },
+    Prog { name: "tid-transfer", lock: "always_success", deps: &[], version: ScriptVersion::V1, types: &["tid:in"], locks2: &[] },
+    Prog { name: "tid-badargs", lock: "always_success", deps: &[], version: ScriptVersion::V2, types: &["tid:badargs"], locks2: &[] },
+    Prog { name: "tid-badhash", lock: "always_success", deps: &[], version: ScriptVersion::V1, types: &["tid:badhash"], locks2: &[] },
+    Prog { name: "tid-dup", lock: "always_success", deps: &[], version: ScriptVersion::V2, types: &["tid:ok", "tid:dup"], locks2: &[] },
+    Prog { name: "tid-mixed", lock: "always_success", deps: &[], version: ScriptVersion::V2, types: &["always_success", "tid:ok", "vm_version_2"], locks2: &["always_success"] },
+    Prog { name: "tid-two", lock: "always_success", deps: &[], version: ScriptVersion::V2, types: &["tid:in", "tid:ok", "always_success"], locks2: &[] },
+    Prog { name: "tid-then-failure", lock: "always_success", deps: &[], version: ScriptVersion::V1, types: &["tid:ok", "always_failure", "always_success"], locks2: &[] },
+    // >= 3 groups mixing lock and type scripts in which a LATER group fails
+    Prog { name: "mixed-late-failure-a", lock: "always_success", deps: &[], version: ScriptVersion::V1, types: &["always_success", "always_failure", "always_success"], locks2: &["always_success", "always_success"] },
+    Prog { name: "mixed-late-failure-b", lock: "always_success", deps: &[], version: ScriptVersion::V2, types: &["always_failure", "always_success", "always_success", "vm_version_2"], locks2: &["vm_version_2"] },
+    Prog { name: "mixed-late-failure-c", lock: "always_success", deps: &[], version: ScriptVersion::V2, types: &["always_success", "tid:badhash", "always_success"], locks2: &["vm_version_2"] },
+    Prog { name: "mixed-late-lock-failure", lock: "always_success", deps: &[], version: ScriptVersion::V1, types: &["always_success"], locks2: &["always_failure", "always_success"] },
+    Prog { name: "spawn-then-failure", lock: "spawn_caller_strcat", deps: &["spawn_callee_strcat"], version: ScriptVersion::V2, types: &["always_success", "always_failure"], locks2: &[] },
+    Prog { name: "exec-then-tid-failure", lock: "exec_caller_from_cell_data", deps: &["exec_callee"], version: ScriptVersion::V2, types: &["tid:ok", "tid:dup", "always_success"], locks2: &["always_success"] },
 ];
 
-fn build(p: &Prog) -> ResolvedTransaction {
+fn type_id_script(args: Vec<u8>) -> Script {
+    Script::new_builder().code_hash(TYPE_ID_CODE_HASH.pack()).hash_type(ScriptHashType::Type).args(Bytes::from(args).pack()).build()
+}
+
+fn is_type_id(script: &Script) -> bool {
+    script.code_hash() == TYPE_ID_CODE_HASH.pack() && Into::<u8>::into(script.hash_type()) == Into::<u8>::into(ScriptHashType::Type)
+}
+
+const INPUT_SHANNONS: u64 = 100_000_000_000;
+const OUTPUT_SHANNONS: u64 = 20_000_000_000;
+
+/// the transaction and the fee it pays
+fn build(p: &Prog) -> (ResolvedTransaction, u64) {
     let mut deps = vec![];
     let mut k = 0u32;
     let mut add = |name: &str, deps: &mut Vec<CellMeta>| -> Byte32 {
@@ -118,32 +194,73 @@ fn build(p: &Prog) -> ResolvedTransaction {
         add(d, &mut deps);
     }
     let lock = Script::new_builder().hash_type(p.version.data_hash_type()).code_hash(lock_hash).build();
-    let input_cell = CellOutput::new_builder().capacity(Capacity::shannons(100_000_000_000)).lock(lock).build();
-    let mut tb = TransactionBuilder::default().input(CellInput::new(OutPoint::new(Byte32::zero(), 7), 0));
+    let first_input = CellInput::new(OutPoint::new(Byte32::zero(), 7), 0);
+    let mut tb = TransactionBuilder::default().input(first_input.clone());
+    let (_, _, as_lock) = ckb_test_chain_utils::always_success_cell();
+    let mut input0_type: Option<Script> = None;
+    let mut prev_type: Option<Script> = None;
     for (i, t) in p.types.iter().enumerate() {
-        let h = add(t, &mut deps);
-        // distinct args make distinct groups even for the same program
-        let ty = Script::new_builder().hash_type(p.version.data_hash_type()).code_hash(h).args(Bytes::from(vec![i as u8]).pack()).build();
-        let (_, _, as_lock) = ckb_test_chain_utils::always_success_cell();
+        let ty = match *t {
+            "tid:ok" => {
+                let mut blake2b = ckb_hash::new_blake2b();
+                blake2b.update(first_input.as_slice());
+                blake2b.update(&(i as u64).to_le_bytes());
+                let mut ret = [0u8; 32];
+                blake2b.finalize(&mut ret);
+                type_id_script(ret.to_vec())
+            }
+            "tid:in" => {
+                let s = type_id_script(vec![0x22; 32]);
+                input0_type = Some(s.clone());
+                s
+            }
+            "tid:badargs" => type_id_script(vec![0x33; 31]),
+            "tid:badhash" => type_id_script(vec![0x11; 32]),
+            "tid:dup" => prev_type.clone().expect("tid:dup follows another type entry"),
+            name => {
+                let h = add(name, &mut deps);
+                // distinct args make distinct groups even for the same program
+                Script::new_builder().hash_type(p.version.data_hash_type()).code_hash(h).args(Bytes::from(vec![i as u8]).pack()).build()
+            }
+        };
+        prev_type = Some(ty.clone());
         tb = tb
-            .output(CellOutput::new_builder().capacity(Capacity::shannons(10_000_000_000)).lock(as_lock.clone()).type_(Some(ty)).build())
+            .output(CellOutput::new_builder().capacity(Capacity::shannons(OUTPUT_SHANNONS)).lock(as_lock.clone()).type_(Some(ty)).build())
             .output_data(Bytes::new());
     }
-    let input_meta = CellMetaBuilder::from_cell_output(input_cell, Bytes::new())
-        .out_point(OutPoint::new(Byte32::zero(), 7))
-        .transaction_info(TransactionInfo::new(1, EpochNumberWithFraction::new(0, 1, 10), Byte32::zero(), 1))
-        .build();
-    ResolvedTransaction { transaction: tb.build(), resolved_cell_deps: deps, resolved_inputs: vec![input_meta], resolved_dep_groups: vec![] }
+    let tx_info = || TransactionInfo::new(1, EpochNumberWithFraction::new(0, 1, 10), Byte32::zero(), 1);
+    let input_cell = CellOutput::new_builder().capacity(Capacity::shannons(INPUT_SHANNONS)).lock(lock).type_(input0_type).build();
+    let mut inputs = vec![CellMetaBuilder::from_cell_output(input_cell, Bytes::new()).out_point(OutPoint::new(Byte32::zero(), 7)).transaction_info(tx_info()).build()];
+    for (i, l) in p.locks2.iter().enumerate() {
+        let h = add(l, &mut deps);
+        let lock = Script::new_builder().hash_type(p.version.data_hash_type()).code_hash(h).args(Bytes::from(vec![0xA0 + i as u8]).pack()).build();
+        let op = OutPoint::new(Byte32::zero(), 8 + i as u32);
+        tb = tb.input(CellInput::new(op.clone(), 0));
+        let cell = CellOutput::new_builder().capacity(Capacity::shannons(INPUT_SHANNONS)).lock(lock).build();
+        inputs.push(CellMetaBuilder::from_cell_output(cell, Bytes::new()).out_point(op).transaction_info(tx_info()).build());
+    }
+    let fee = INPUT_SHANNONS * inputs.len() as u64 - OUTPUT_SHANNONS * p.types.len() as u64;
+    (ResolvedTransaction { transaction: tb.build(), resolved_cell_deps: deps, resolved_inputs: inputs, resolved_dep_groups: vec![] }, fee)
+}
+
+fn tx_env() -> Arc<TxVerifyEnv> {
+    let header = HeaderView::new_advanced_builder().epoch(EpochNumberWithFraction::new(5, 0, 10)).number(50).build();
+    Arc::new(TxVerifyEnv::new_commit(&header))
 }
 
 fn verifier(rtx: &ResolvedTransaction, consensus: &Arc<Consensus>) -> Verifier {
-    let header = HeaderView::new_advanced_builder().epoch(EpochNumberWithFraction::new(5, 0, 10)).number(50).build();
-    TransactionScriptsVerifier::new(Arc::new(rtx.clone()), NoData, Arc::clone(consensus), Arc::new(TxVerifyEnv::new_commit(&header)))
+    TransactionScriptsVerifier::new(Arc::new(rtx.clone()), NoData, Arc::clone(consensus), tx_env())
 }
 
+/// the wrapper of verification/src/transaction_verifier.rs (time-relative + capacity + scripts + fee)
+fn ctx_verifier(rtx: &ResolvedTransaction, consensus: &Arc<Consensus>) -> Ctx {
+    ContextualTransactionVerifier::new(Arc::new(rtx.clone()), Arc::clone(consensus), NoData, tx_env())
+}
+
+/// error class and payload (the limit of ExceededMaximumCycles, the exit code), without attribution
 fn class_of(e: &ckb_error::Error) -> String {
     match e.downcast_ref::<TransactionScriptError>().map(|t| t.script_error()) {
-        Some(ScriptError::ExceededMaximumCycles(_)) => "exceeded".into(),
+        Some(ScriptError::ExceededMaximumCycles(l)) => format!("exceeded {l}"),
         Some(ScriptError::ValidationFailure(_, code)) => format!("fail {code}"),
         Some(ScriptError::Other(_)) => "other".into(),
         Some(ScriptError::CyclesOverflow(..)) => "overflow".into(),
@@ -154,36 +271,163 @@ fn class_of(e: &ckb_error::Error) -> String {
     }
 }
 
-fn show(r: &Result<u64, ckb_error::Error>) -> String {
+/// the group an error is attributed to (`TransactionScriptError::originating_script`), as an index
+/// into groups()
+fn group_of(groups: &[G], e: &ckb_error::Error) -> String {
+    match e.downcast_ref::<TransactionScriptError>() {
+        Some(t) => {
+            let src = format!("{:?}", t.originating_script());
+            groups.iter().position(|g| g.src == src).map(|i| i.to_string()).unwrap_or_else(|| "?".into())
+        }
+        None => "?".into(),
+    }
+}
+
+/// class + payload + attributed group
+fn show(groups: &[G], r: &Result<u64, ckb_error::Error>) -> String {
+    match r {
+        Ok(c) => format!("ok {c}"),
+        Err(e) => {
+            let c = class_of(e);
+            if c.starts_with("exceeded") || c.starts_with("fail") { format!("{c} @{}", group_of(groups, e)) } else { c }
+        }
+    }
+}
+
+/// class + payload only (entry points whose attribution the model does not predict)
+fn show_plain(r: &Result<u64, ckb_error::Error>) -> String {
     match r {
         Ok(c) => format!("ok {c}"),
         Err(e) => class_of(e),
     }
 }
 
-/// per-group (cost, exit code) with unlimited budget; None if some group ends in a VM error
-fn measure(v: &Verifier) -> Option<Vec<(u64, i8)>> {
+/// everything an error carries (script error with all its fields + originating script), for the
+/// chunked-vs-one-shot comparison of the oracle
+fn payload(r: &Result<u64, ckb_error::Error>) -> String {
+    match r {
+        Ok(c) => format!("ok {c}"),
+        Err(e) => match e.downcast_ref::<TransactionScriptError>() {
+            Some(t) => format!("{:?} at {:?}", t.script_error(), t.originating_script()),
+            None => format!("non-script-error {e:?}"),
+        },
+    }
+}
+
+fn show_vr(groups: &[G], r: &Result<VerifyResult, ckb_error::Error>) -> String {
+    match r {
+        Ok(VerifyResult::Completed(c)) => format!("ok {c}"),
+        Ok(VerifyResult::Suspended(s)) => format!("suspended {}", s.current),
+        Err(e) => {
+            let c = class_of(e);
+            if c.starts_with("exceeded") || c.starts_with("fail") { format!("{c} @{}", group_of(groups, e)) } else { c }
+        }
+    }
+}
+
+/// a script group as measured with unlimited budget
+#[derive(Clone)]
+struct G {
+    /// cycles consumed up to the exit (for a failing group: up to the failure)
+    cost: u64,
+    code: i8,
+    /// the built-in TYPE_ID system script
+    tid: bool,
+    /// `TransactionScriptErrorSource` of the group, as printed by Debug
+    src: String,
+}
+
+fn src_of_group(g: &ScriptGroup) -> String {
+    if let Some(n) = g.input_indices.first() {
+        format!("Inputs({n}, {:?})", g.group_type)
+    } else if let Some(n) = g.output_indices.first() {
+        format!("Outputs({n}, {:?})", g.group_type)
+    } else {
+        "Unknown".into()
+    }
+}
+
+/// per-group cost and exit code with unlimited budget; None if some group ends in a VM error
+fn measure(v: &Verifier) -> Option<Vec<G>> {
     let mut out = vec![];
     for (hash, g) in v.groups() {
-        match v.verify_single(g.group_type, hash, 200_000_000) {
-            Ok(c) => out.push((c, 0)),
-            Err(ScriptError::ValidationFailure(_, code)) => out.push((0, code)),
-            Err(e) => {
-                if std::env::var("VERIF_SHOW_PANIC").is_ok() {
-                    eprintln!("measure: group does not run: {e:?}");
+        let src = src_of_group(g);
+        if is_type_id(&g.script) {
+            match v.verify_single(g.group_type, hash, u64::MAX) {
+                Ok(c) => out.push(G { cost: c, code: 0, tid: true, src }),
+                Err(ScriptError::ValidationFailure(_, code)) => {
+                    // the cycles the system script asks for before it looks at anything: the least
+                    // budget that is not answered with ExceededMaximumCycles
+                    let (mut lo, mut hi) = (0u64, u64::MAX); // lo: exceeded (or 0), hi: not exceeded
+                    if !matches!(v.verify_single(g.group_type, hash, 0), Err(ScriptError::ExceededMaximumCycles(_))) {
+                        hi = 0;
+                    }
+                    while hi > 0 && hi - lo > 1 {
+                        let mid = lo + (hi - lo) / 2;
+                        if matches!(v.verify_single(g.group_type, hash, mid), Err(ScriptError::ExceededMaximumCycles(_))) { lo = mid } else { hi = mid }
+                    }
+                    out.push(G { cost: hi, code, tid: true, src });
                 }
-                return None;
+                Err(e) => {
+                    if std::env::var("VERIF_SHOW_PANIC").is_ok() {
+                        eprintln!("measure: type-id group does not run: {e:?}");
+                    }
+                    return None;
+                }
+            }
+        } else {
+            match v.detailed_run(g, 200_000_000) {
+                Ok(t) => out.push(G { cost: t.consumed_cycles, code: t.exit_code, tid: false, src }),
+                Err(e) => {
+                    if std::env::var("VERIF_SHOW_PANIC").is_ok() {
+                        eprintln!("measure: group does not run: {e:?}");
+                    }
+                    return None;
+                }
             }
         }
     }
     Some(out)
 }
 
+fn groups_line(groups: &[G]) -> String {
+    groups.iter().map(|g| format!("{}:{}{}", g.cost, g.code, if g.tid { ":t" } else { "" })).collect::<Vec<_>>().join(",")
+}
+
+/// cycles an uninterrupted run needs to reach its verdict: every group up to and including the
+/// first failing one
+fn need_of(groups: &[G]) -> u64 {
+    let mut n = 0;
+    for g in groups {
+        n += g.cost;
+        if g.code != 0 {
+            break;
+        }
+    }
+    n
+}
+
 struct Case {
     v: Verifier,
-    groups: Vec<(u64, i8)>,
-    total: u64,
+    ctx: Ctx,
+    fee: u64,
+    groups: Vec<G>,
+    /// cycles needed to reach the verdict (= total cost when every group succeeds)
+    need: u64,
     all_ok: bool,
+    /// the unlimited one-shot run, with everything its error carries
+    unlimited: String,
+}
+
+fn make_case(p: &Prog, consensus: &Arc<Consensus>) -> Option<Case> {
+    let (rtx, fee) = build(p);
+    let v = verifier(&rtx, consensus);
+    let ctx = ctx_verifier(&rtx, consensus);
+    let groups = measure(&v)?;
+    let need = need_of(&groups);
+    let all_ok = groups.iter().all(|g| g.code == 0);
+    let unlimited = payload(&v.verify(u64::MAX));
+    Some(Case { v, ctx, fee, groups, need, all_ok, unlimited })
 }
 
 fn drive_chunks(v: &Verifier, limits: &[u64]) -> (Result<u64, ckb_error::Error>, u64) {
@@ -216,9 +460,70 @@ fn drive_chunks(v: &Verifier, limits: &[u64]) -> (Result<u64, ckb_error::Error>,
                 state = Some(s);
             }
         }
-        if rounds >= 3000 {
-            return (Err(ScriptError::Other("verif: chunk drive made no end in 3000 rounds".into()).unknown_source().into()), rounds);
+        if rounds >= 6000 {
+            return (Err(ScriptError::Other("verif: chunk drive made no end in 6000 rounds".into()).unknown_source().into()), rounds);
         }
+    }
+}
+
+fn vr_to_result(r: Result<VerifyResult, ckb_error::Error>) -> Option<Result<u64, ckb_error::Error>> {
+    match r {
+        Ok(VerifyResult::Completed(c)) => Some(Ok(c)),
+        Ok(VerifyResult::Suspended(_)) => None,
+        Err(e) => Some(Err(e)),
+    }
+}
+
+fn is_deadlock(e: &ckb_error::Error) -> bool {
+    matches!(e.downcast_ref::<TransactionScriptError>().map(|t| t.script_error()), Some(ScriptError::VMInternalError(v)) if format!("{v:?}").contains("deadlock"))
+}
+
+/// the two budget clauses on one call of the resumable API: `done` cycles were executed before the
+/// call, `l` is the limit of the call
+fn oracle_resumable(out: &mut Out, c: &Case, entry: &str, done: u64, l: u64, r: &Result<VerifyResult, ckb_error::Error>, line: &str) {
+    let enough = done.saturating_add(l) >= c.need;
+    match r {
+        Ok(VerifyResult::Suspended(s)) => {
+            if enough {
+                out.oracle_fail(&format!("{entry}-suspends-with-sufficient-limit"), &format!("done={done} limit={l} need={} suspended in group {} op={line}", c.need, s.current));
+            }
+            if s.limit_cycles > l {
+                out.oracle_fail("suspended-state-limit-above-call-limit", &format!("limit={l} state.limit_cycles={} op={line}", s.limit_cycles));
+            }
+            let done2 = s.current_cycles + s.state.as_ref().map(|f| f.total_cycles).unwrap_or(0);
+            if done2 < done {
+                out.oracle_fail("suspended-state-went-backwards", &format!("done before={done} after={done2} op={line}"));
+            }
+            if done2 > done.saturating_add(l) {
+                // the scheduler may charge spawn/exec/IO bookkeeping past the limit before it stops
+                out.count(&format!("{entry}:overshoot"));
+            }
+        }
+        _ => {
+            let res = match r { Ok(VerifyResult::Completed(n)) => Ok(*n), Err(e) => Err(e.clone()), _ => unreachable!() };
+            if enough {
+                if payload(&res) != c.unlimited {
+                    let class = if matches!(&res, Err(e) if is_deadlock(e)) { "chunked-differs-from-oneshot".to_string() } else { format!("{entry}-differs-with-sufficient-limit") };
+                    out.oracle_fail(&class, &format!("done={done} limit={l} need={} oneshot=[{}] got=[{}] op={line}", c.need, c.unlimited, payload(&res)));
+                }
+            } else {
+                let class = if matches!(&res, Err(e) if is_deadlock(e)) { "chunked-differs-from-oneshot".to_string() } else { format!("{entry}-ends-below-need") };
+                out.oracle_fail(&class, &format!("done={done} limit={l} need={} got=[{}] op={line}", c.need, payload(&res)));
+            }
+        }
+    }
+}
+
+/// run `resumable_verify(l)` and insist on the suspension point recorded in the op line
+fn suspend_at(c: &Case, l: u64, idx: &str, p: &str) -> Result<TransactionState, String> {
+    match c.v.resumable_verify(l) {
+        Ok(VerifyResult::Suspended(s)) => {
+            let got = (s.current as u64, s.state.as_ref().map(|f| f.total_cycles).unwrap_or(0));
+            assert_eq!(got, (idx.parse().unwrap(), p.parse().unwrap()), "suspension point differs on replay");
+            Ok(s)
+        }
+        Ok(VerifyResult::Completed(n)) => Err(format!("completed-early {n}")),
+        Err(e) => Err(class_of(&e)),
     }
 }
 
@@ -229,61 +534,121 @@ fn exec_case(lines: &[String], out: &mut Out, consensus: &Arc<Consensus>, rt: &t
         match t[0] {
             "prog" => {
                 let p = PROGS.iter().find(|p| p.name == t[1]).unwrap_or_else(|| panic!("unknown program {}", t[1]));
-                let rtx = build(p);
-                let v = verifier(&rtx, consensus);
-                let groups = measure(&v).unwrap_or_else(|| panic!("program {} does not run", p.name));
-                let shown: Vec<String> = groups.iter().map(|(c, e)| format!("{c}:{e}")).collect();
-                assert_eq!(shown.join(","), t[2], "program {} measures differently on replay", p.name);
-                let total = groups.iter().map(|g| g.0).sum();
-                let all_ok = groups.iter().all(|g| g.1 == 0);
-                case = Some(Case { v, groups, total, all_ok });
+                let c = make_case(p, consensus).unwrap_or_else(|| panic!("program {} does not run", p.name));
+                assert_eq!(groups_line(&c.groups), t[2], "program {} measures differently on replay", p.name);
+                if c.groups.iter().any(|g| g.tid) {
+                    out.count("prog:with-type-id-group");
+                }
+                if c.groups.len() >= 3 && c.groups.iter().position(|g| g.code != 0).map(|i| i >= 1).unwrap_or(false) {
+                    out.count("prog:three-groups-later-failure");
+                }
+                case = Some(c);
                 out.op(line, "ok");
             }
             "note" => out.op(line, "ok"),
-            "verify" => {
+            "verify" | "ctx-verify" => {
                 let c = case.as_ref().expect("prog first");
                 let b: u64 = t[1].parse().unwrap();
-                let r = c.v.verify(b);
-                out.op(line, &show(&r));
-                out.count("op:verify");
-                oracle_budget(out, c, "verify", b, &r, line);
+                let raw = c.v.verify(b);
+                let r = if t[0] == "verify" { raw } else {
+                    let w = c.ctx.verify(b, false);
+                    if let Ok(done) = &w {
+                        if done.fee.as_u64() != c.fee {
+                            out.oracle_fail("wrapper-fee-differs", &format!("fee={} expected={} op={line}", done.fee.as_u64(), c.fee));
+                        }
+                    }
+                    let w = w.map(|d| d.cycles);
+                    if payload(&w) != payload(&raw) {
+                        out.oracle_fail("wrapper-differs-from-raw-verifier", &format!("raw=[{}] wrapper=[{}] op={line}", payload(&raw), payload(&w)));
+                    }
+                    w
+                };
+                out.op(line, &show(&c.groups, &r));
+                out.count(&format!("op:{}", t[0]));
+                oracle_budget(out, c, t[0], b, &r, line, 0);
+            }
+            "rv" => {
+                let c = case.as_ref().expect("prog first");
+                let l: u64 = t[1].parse().unwrap();
+                let r = c.v.resumable_verify(l);
+                out.op(line, &show_vr(&c.groups, &r));
+                out.count("op:rv");
+                if let Ok(VerifyResult::Suspended(s)) = &r {
+                    out.nontrivial(format!("rv/suspended/{}", s.current));
+                }
+                oracle_resumable(out, c, "resumable_verify", 0, l, &r, line);
+            }
+            "resume" => {
+                let c = case.as_ref().expect("prog first");
+                let (l1, l2): (u64, u64) = (t[1].parse().unwrap(), t[2].parse().unwrap());
+                match suspend_at(c, l1, t[3], t[4]) {
+                    Ok(s) => {
+                        let done = s.current_cycles + s.state.as_ref().map(|f| f.total_cycles).unwrap_or(0);
+                        let r = c.v.resume_from_state(&s, l2);
+                        let shown = show_vr(&c.groups, &r);
+                        if shown.starts_with("vm-error") {
+                            // VM-level deviation (F20 family), outside the accounting model: the op line
+                            // carries the observed class so that the model stream stays aligned
+                            out.op(&format!("{line} dev={}", shown.replace(' ', "_")), &shown);
+                        } else {
+                            out.op(line, &shown);
+                        }
+                        out.count("op:resume");
+                        out.nontrivial(format!("resume/{}/{}", s.current, shown.split(' ').next().unwrap()));
+                        oracle_resumable(out, c, "resume_from_state", done, l2, &r, line);
+                    }
+                    Err(a) => out.op(line, &a),
+                }
             }
             "chunks" => {
                 let c = case.as_ref().expect("prog first");
                 let limits: Vec<u64> = t[1].split(',').map(|x| x.parse().unwrap()).collect();
                 let (r, rounds) = drive_chunks(&c.v, &limits);
                 let one = c.v.verify(u64::MAX);
-                if show(&one) != show(&r) {
+                if show(&c.groups, &one) != show(&c.groups, &r) {
                     // deviation (known finding F20 family): reported by the oracle below; the op line
                     // carries the observed class so that the model stream stays aligned
-                    out.op(&format!("{} dev={}", t[..2].join(" "), show(&r).replace(' ', "_")), &show(&r));
+                    out.op(&format!("{} dev={}", t[..2].join(" "), show(&c.groups, &r).replace(' ', "_")), &show(&c.groups, &r));
                 } else {
-                    out.op(&t[..2].join(" "), &show(&r));
+                    out.op(&t[..2].join(" "), &show(&c.groups, &r));
                 }
                 out.count("op:chunks");
                 if rounds > 1 {
                     out.nontrivial(format!("chunks/{}/{}", t[1].len().min(12), rounds.min(64)));
                 }
-                // oracle: any partition driven to completion = the unlimited one-shot run
-                if show(&one) != show(&r) {
-                    out.oracle_fail("chunked-differs-from-oneshot", &format!("oneshot={} chunked={} rounds={rounds} op={line}", show(&one), show(&r)));
+                // oracle: any partition driven to completion = the unlimited one-shot run: class,
+                // payload (total cycles / exit code / every field of the error) and attributed group
+                if show(&c.groups, &one) != show(&c.groups, &r) {
+                    out.oracle_fail("chunked-differs-from-oneshot", &format!("oneshot={} chunked={} rounds={rounds} op={line}", show(&c.groups, &one), show(&c.groups, &r)));
+                } else if payload(&one) != payload(&r) {
+                    out.oracle_fail("chunked-error-payload-differs", &format!("oneshot=[{}] chunked=[{}] rounds={rounds} op={line}", payload(&one), payload(&r)));
                 }
             }
-            "complete" => {
+            "complete" | "ctx-complete" => {
                 let c = case.as_ref().expect("prog first");
                 let (l, b): (u64, u64) = (t[1].parse().unwrap(), t[2].parse().unwrap());
-                match c.v.resumable_verify(l) {
-                    Ok(VerifyResult::Suspended(s)) => {
-                        let p = s.state.as_ref().map(|f| f.total_cycles).unwrap_or(0);
-                        assert_eq!((s.current as u64, p), (t[3].parse().unwrap(), t[4].parse().unwrap()), "suspension point differs on replay");
-                        let r = c.v.complete(&s, b);
-                        out.op(line, &show(&r));
-                        out.count("op:complete");
-                        out.nontrivial(format!("complete/{}/{}", s.current, show(&r).split(' ').next().unwrap()));
-                        oracle_budget(out, c, "complete", b, &r, line);
+                match suspend_at(c, l, t[3], t[4]) {
+                    Ok(s) => {
+                        let raw = c.v.complete(&s, b);
+                        let r = if t[0] == "complete" { raw } else {
+                            let w = c.ctx.complete(b, false, &s);
+                            if let Ok(done) = &w {
+                                if done.fee.as_u64() != c.fee {
+                                    out.oracle_fail("wrapper-fee-differs", &format!("fee={} expected={} op={line}", done.fee.as_u64(), c.fee));
+                                }
+                            }
+                            let w = w.map(|d| d.cycles);
+                            if payload(&w) != payload(&raw) {
+                                out.oracle_fail("wrapper-differs-from-raw-verifier", &format!("raw=[{}] wrapper=[{}] op={line}", payload(&raw), payload(&w)));
+                            }
+                            w
+                        };
+                        out.op(line, &show_plain(&r));
+                        out.count(&format!("op:{}", t[0]));
+                        out.nontrivial(format!("{}/{}/{}", t[0], s.current, show_plain(&r).split(' ').next().unwrap()));
+                        oracle_budget(out, c, "complete", b, &r, line, t[4].parse().unwrap());
                     }
-                    Ok(VerifyResult::Completed(n)) => out.op(line, &format!("completed-early {n}")),
-                    Err(e) => out.op(line, &class_of(&e)),
+                    Err(a) => out.op(line, &a),
                 }
             }
             _ => panic!("C05: bad op {line:?}"),
@@ -292,24 +657,45 @@ fn exec_case(lines: &[String], out: &mut Out, consensus: &Arc<Consensus>, rt: &t
     let _ = rt;
 }
 
-/// the budget clause of the property on the implementation's own answers
-fn oracle_budget(out: &mut Out, c: &Case, entry: &str, b: u64, r: &Result<u64, ckb_error::Error>, line: &str) {
-    if !c.all_ok {
-        return;
-    }
-    if b < c.total {
+/// the budget clauses of the property on the implementation's own answers (one-shot entry points
+/// and `complete`): below the cycles needed never a success; from the cycles needed on exactly the
+/// unlimited result, including everything the error carries
+fn oracle_budget(out: &mut Out, c: &Case, entry: &str, b: u64, r: &Result<u64, ckb_error::Error>, line: &str, inside: u64) {
+    if b < c.need {
         if let Ok(n) = r {
-            out.oracle_fail(&format!("{entry}-succeeds-below-cost"), &format!("budget={b} cost={} returned=ok {n} op={line}", c.total));
-        } else if show(r) != "exceeded" {
-            out.count(&format!("{entry}:below-cost-error-not-exceeded"));
+            // F4 (known) explains a success of `complete` only when the budget is short by no more than the
+            // cycles consumed inside the suspended group (Lean: complete_budget_lt_partial)
+            let class = if entry == "complete" && b.saturating_add(inside) < c.need { "complete-succeeds-below-cost-beyond-f4".to_string() } else { format!("{entry}-succeeds-below-cost") };
+            out.oracle_fail(&class, &format!("budget={b} cost={} consumed-inside-group={inside} returned=ok {n} op={line}", c.need));
+        } else if !class_of(r.as_ref().unwrap_err()).starts_with("exceeded") {
+            if entry.ends_with("verify") {
+                out.oracle_fail(&format!("{entry}-below-cost-error-is-not-the-cycle-limit"), &format!("budget={b} cost={} returned=[{}] op={line}", c.need, payload(r)));
+            } else {
+                out.count(&format!("{entry}:below-cost-error-not-exceeded"));
+            }
+        } else if entry.ends_with("verify") {
+            // payload: the limit reported is what was left of the budget for the group that did not
+            // fit, and the error is attributed to that group
+            let mut before = 0;
+            let mut j = 0;
+            while j < c.groups.len() && before + c.groups[j].cost <= b {
+                before += c.groups[j].cost;
+                j += 1;
+            }
+            let expect = format!("exceeded {} @{j}", b - before);
+            if show(&c.groups, r) != expect {
+                out.oracle_fail(&format!("{entry}-exceeded-payload-differs"), &format!("budget={b} expected=[{expect}] returned=[{}] op={line}", show(&c.groups, r)));
+            }
         }
-    } else if show(r) != format!("ok {}", c.total) {
-        out.oracle_fail(&format!("{entry}-differs-with-sufficient-budget"), &format!("budget={b} cost={} returned={} op={line}", c.total, show(r)));
+    } else if payload(r) != c.unlimited {
+        let class = if c.all_ok { format!("{entry}-differs-with-sufficient-budget") } else { format!("{entry}-failure-differs-with-sufficient-budget") };
+        out.oracle_fail(&class, &format!("budget={b} cost={} unlimited=[{}] returned=[{}] op={line}", c.need, c.unlimited, payload(r)));
     }
 }
 
-/// signal path: Suspend/Resume at random instants; returns the result
-fn run_signal(rt: &tokio::runtime::Runtime, v: &Verifier, budget: u64, rng: &mut Rng, toggles: u64) -> Result<u64, ckb_error::Error> {
+/// signal path: Suspend/Resume at random instants; returns the result. `via_ctx`: through the
+/// `ContextualTransactionVerifier::verify_with_pause` wrapper
+fn run_signal(rt: &tokio::runtime::Runtime, c: &Case, via_ctx: bool, budget: u64, rng: &mut Rng, toggles: u64) -> Result<u64, ckb_error::Error> {
     let (tx, mut rx) = tokio::sync::watch::channel(ChunkCommand::Resume);
     let delays: Vec<u64> = (0..toggles * 2).map(|_| rng.below(400)).collect();
     let h = std::thread::spawn(move || {
@@ -321,73 +707,149 @@ fn run_signal(rt: &tokio::runtime::Runtime, v: &Verifier, budget: u64, rng: &mut
         std::thread::sleep(std::time::Duration::from_millis(3000));
         drop(tx);
     });
-    let r = rt.block_on(async { v.resumable_verify_with_signal(budget, &mut rx).await });
+    let r = if via_ctx {
+        rt.block_on(async { c.ctx.verify_with_pause(budget, &mut rx).await }).map(|d| d.cycles)
+    } else {
+        rt.block_on(async { c.v.resumable_verify_with_signal(budget, &mut rx).await })
+    };
     drop(h); // detached; it ends by itself
     r
 }
 
+const HEAVY: &[&str] = &["spawn-recursive", "spawn-io-cycles", "spawn-huge-swap", "spawn-saturate", "strcat-wrap", "spawn-17"];
+
+fn push_unique(lines: &mut Vec<String>, l: String) {
+    if !lines.contains(&l) {
+        lines.push(l);
+    }
+}
+
 fn gen_case(p: &Prog, rng: &mut Rng, thorough: bool, consensus: &Arc<Consensus>) -> Option<Vec<String>> {
-    let rtx = build(p);
-    let v = verifier(&rtx, consensus);
-    let groups = measure(&v)?;
-    let total: u64 = groups.iter().map(|g| g.0).sum();
-    let heavy_prog = ["spawn-recursive", "spawn-io-cycles", "spawn-huge-swap", "spawn-saturate", "strcat-wrap", "spawn-17"].contains(&p.name);
-    if !thorough && (total > 3_000_000 || heavy_prog) {
+    let c = make_case(p, consensus)?;
+    let (v, groups, need) = (&c.v, &c.groups, c.need);
+    let heavy_prog = HEAVY.contains(&p.name);
+    if !thorough && (need > 3_000_000 || heavy_prog) {
         return None; // long-running programs: thorough tier only
     }
-    let all_ok = groups.iter().all(|g| g.1 == 0);
-    let mut lines = vec![format!("prog {} {}", p.name, groups.iter().map(|(c, e)| format!("{c}:{e}")).collect::<Vec<_>>().join(","))];
-    // budgets
-    if all_ok {
-        for b in [total.saturating_sub(1), total, total + 1, 0, total / 2, u64::MAX] {
-            lines.push(format!("verify {b}"));
+    let mut lines = vec![format!("prog {} {}", p.name, groups_line(groups))];
+    // group boundaries (cumulative cost after each group that runs)
+    let mut bounds = vec![];
+    let mut acc = 0;
+    for g in groups {
+        acc += g.cost;
+        bounds.push(acc);
+        if g.code != 0 {
+            break;
         }
-        let mut acc = 0;
-        for g in &groups {
-            acc += g.0;
-            for b in [acc.saturating_sub(1), acc] {
-                lines.push(format!("verify {b}"));
+    }
+    // budgets: around the cycles needed, and each group boundary -1 / exact / +1
+    let mut budgets = vec![need.saturating_sub(1), need, need + 1, 0, 1, need / 2, u64::MAX];
+    for b in &bounds {
+        budgets.extend([b.saturating_sub(1), *b, b + 1]);
+    }
+    for b in &budgets {
+        push_unique(&mut lines, format!("verify {b}"));
+    }
+    for b in &budgets {
+        push_unique(&mut lines, format!("rv {b}"));
+    }
+    for b in [need.saturating_sub(1), need, u64::MAX, bounds[0].saturating_sub(1), bounds[bounds.len() / 2]] {
+        push_unique(&mut lines, format!("ctx-verify {b}"));
+    }
+    // one resume_from_state call from states suspended just before / just after each group boundary
+    // and at random points, with limits around what is still needed and around the next boundaries
+    if need > 2 {
+        let mut l1s: Vec<u64> = vec![];
+        for b in &bounds {
+            l1s.extend([b.saturating_sub(1), *b]);
+        }
+        let n_rand = if heavy_prog { 1 } else if thorough { 6 } else { 2 };
+        for _ in 0..n_rand {
+            l1s.push(rng.range(1, need - 1));
+        }
+        l1s.sort();
+        l1s.dedup();
+        if heavy_prog {
+            l1s.truncate(2);
+        }
+        for l1 in l1s {
+            if l1 >= need {
+                continue;
+            }
+            if let Ok(VerifyResult::Suspended(s)) = v.resumable_verify(l1) {
+                let p_in = s.state.as_ref().map(|f| f.total_cycles).unwrap_or(0);
+                let done = s.current_cycles + p_in;
+                let rem = need.saturating_sub(done);
+                let mut l2s = vec![rem.saturating_sub(1), rem, rem + 1, 1, u64::MAX];
+                for b in &bounds {
+                    if *b > done {
+                        l2s.extend([(b - done).saturating_sub(1), b - done, b - done + 1]);
+                    }
+                }
+                l2s.sort();
+                l2s.dedup();
+                if heavy_prog {
+                    l2s = vec![rem.saturating_sub(1), rem];
+                }
+                for l2 in l2s {
+                    push_unique(&mut lines, format!("resume {l1} {l2} {} {p_in}", s.current));
+                }
             }
         }
-    } else {
-        lines.push(format!("verify {}", u64::MAX));
     }
     // chunk schedules driven to completion
-    if !all_ok {
-        // cost unknown (the one-shot error carries no cycles): coarse schedules only
-        let heavy = ["spawn-recursive", "spawn-io-cycles", "spawn-huge-swap", "spawn-saturate", "strcat-wrap", "spawn-17"].contains(&p.name);
-        let ls: &[&str] = if heavy { &["50000000"] } else { &["5000", "1000000", "200000,400000", "30000,70000,110000"] };
-        for l in ls {
-            lines.push(format!("chunks {l}"));
-        }
-        return Some(lines);
-    }
-    let exhaustive = total <= 4096;
+    let vm_need: u64 = { let mut n = 0; for g in groups { if !g.tid { n += g.cost; } if g.code != 0 { break; } } n };
+    let has_tid = groups.iter().any(|g| g.tid);
+    let exhaustive = vm_need <= 4096;
     if exhaustive {
+        // EVERY chunk size for the smallest programs (thorough), every 7th in the quick tier; a
+        // chunk limit of 1 cycle always
         let step = if thorough { 1 } else { 7 };
         let mut l = 1;
-        while l <= total + 1 {
+        while l <= vm_need + 1 {
             lines.push(format!("chunks {l}"));
             l += step;
+        }
+        if has_tid {
+            for b in &bounds {
+                for l in [b.saturating_sub(1), *b, b + 1] {
+                    push_unique(&mut lines, format!("chunks {l}"));
+                }
+            }
+            for g in groups.iter().filter(|g| g.tid) {
+                for l in [g.cost - 1, g.cost, g.cost + 1, g.cost / 2] {
+                    push_unique(&mut lines, format!("chunks {l}"));
+                }
+            }
+        }
+    } else if !heavy_prog {
+        push_unique(&mut lines, format!("chunks {}", need.saturating_sub(1)));
+        for b in &bounds {
+            push_unique(&mut lines, format!("chunks {b}"));
         }
     }
     let n_random = if exhaustive { if thorough { 60 } else { 12 } } else if thorough { 12 } else { 3 };
     for _ in 0..n_random {
         let k = rng.range(1, 6);
-        let floor = if exhaustive { 0 } else if thorough { total / 60 } else { total / 15 };
-        let base = (total / rng.range(2, 40)).max(1);
+        let floor = if exhaustive { 0 } else if thorough { need / 60 } else { need / 15 };
+        let base = (if exhaustive && has_tid && rng.chance(1, 2) { vm_need } else { need } / rng.range(2, 40)).max(1);
         let ls: Vec<String> = (0..k).map(|_| (rng.range(1, base) + floor).to_string()).collect();
         lines.push(format!("chunks {}", ls.join(",")));
     }
     // suspend, then complete with budgets around the true cost
-    if all_ok && total > 2 {
+    if need > 2 {
         let n = if exhaustive { if thorough { 40 } else { 10 } } else if thorough { 8 } else { 3 };
-        for _ in 0..n {
-            let l = rng.range(1, total - 1);
+        for i in 0..n {
+            let l = rng.range(1, need - 1);
             if let Ok(VerifyResult::Suspended(s)) = v.resumable_verify(l) {
                 let p_in = s.state.as_ref().map(|f| f.total_cycles).unwrap_or(0);
-                for b in [total - 1, total, total + 1, l, total.saturating_sub(p_in), total.saturating_sub(p_in).saturating_sub(1)] {
+                for b in [need - 1, need, need + 1, l, need.saturating_sub(p_in), need.saturating_sub(p_in).saturating_sub(1)] {
                     lines.push(format!("complete {l} {b} {} {p_in}", s.current));
+                }
+                if i < 2 {
+                    for b in [need - 1, need, u64::MAX] {
+                        lines.push(format!("ctx-complete {l} {b} {} {p_in}", s.current));
+                    }
                 }
             }
         }
@@ -439,56 +901,63 @@ pub fn run(opts: &Opts) {
             None => skipped.push(p.name),
             Some(lines) => {
                 let t0 = std::time::Instant::now();
-                if std::env::var("VERIF_SHOW_PANIC").is_ok() {
-                    eprintln!("case {} ({} ops)", p.name, lines.len());
-                }
-                let _ = t0;
                 out.begin_case(p.name);
                 exec_case(&lines, &mut out, &consensus, &rt);
-                // signal path (oracle only: pause instants are wall-clock, not observable)
-                let c_rtx = build(p);
-                let v = verifier(&c_rtx, &consensus);
-                if let Some(groups) = measure(&v) {
-                    let total: u64 = groups.iter().map(|g| g.0).sum();
-                    let all_ok = groups.iter().all(|g| g.1 == 0);
-                    let one = v.verify(u64::MAX);
-                    let n = if total > 4096 { if opts.thorough() { 8 } else { 2 } } else if opts.thorough() { 30 } else { 6 } * opts.scale;
-                    for _ in 0..n {
-                        let toggles = rng.range(0, 4);
-                        let budget = *rng.pick(&[u64::MAX, total, total + 1, total.saturating_sub(1), total / 2]);
-                        let r = match std::panic::catch_unwind(std::panic::AssertUnwindSafe(|| run_signal(&rt, &v, budget, &mut rng, toggles))) {
+                // signal path (oracle only: pause instants are wall-clock, not observable), raw and
+                // through the ContextualTransactionVerifier wrapper
+                if let Some(c) = make_case(p, &consensus) {
+                    let need = c.need;
+                    let n = if need > 4096 { if opts.thorough() { 10 } else { 4 } } else if opts.thorough() { 32 } else { 8 } * opts.scale;
+                    for i in 0..n {
+                        // the first runs send no signal at all: the production path must then be exactly
+                        // `verify` (budget one below the need, and the need itself); then random signals
+                        let toggles = if i < 2 { 0 } else { rng.range(0, 4) };
+                        let budget = if i == 0 { need.saturating_sub(1) } else if i == 1 { need } else { *rng.pick(&[u64::MAX, need, need + 1, need.saturating_sub(1), need / 2]) };
+                        let via_ctx = i % 3 == 2 || (i < 2 && p.name.len() % 2 == 0);
+                        let tag = if via_ctx { "ctx-signal" } else { "signal" };
+                        let r = match std::panic::catch_unwind(std::panic::AssertUnwindSafe(|| run_signal(&rt, &c, via_ctx, budget, &mut rng, toggles))) {
                             Ok(r) => r,
                             Err(_) => {
                                 // debug builds: `debug_assert!(consumed_cycles <= max_cycles)` in
                                 // chunk_run_with_signal fires after a Resume — the F4b symptom
-                                out.op(&format!("note signal budget={budget} toggles={toggles}"), "ok");
+                                out.op(&format!("note {tag} budget={budget} toggles={toggles}"), "ok");
                                 out.count("op:signal-panic");
-                                if all_ok && budget < total {
-                                    out.oracle_fail("signal-succeeds-below-cost", &format!("budget={budget} cost={total} the verifier's own debug assertion `consumed <= max_cycles` fired (panic) toggles={toggles}"));
+                                if budget < need {
+                                    out.oracle_fail("signal-succeeds-below-cost", &format!("budget={budget} cost={need} the verifier's own debug assertion `consumed <= max_cycles` fired (panic) toggles={toggles}"));
                                 } else {
-                                    out.oracle_fail("signal-panics", &format!("budget={budget} cost={total} toggles={toggles}"));
+                                    out.oracle_fail("signal-panics", &format!("budget={budget} cost={need} toggles={toggles}"));
                                 }
                                 continue;
                             }
                         };
-                        out.op(&format!("note signal budget={budget} toggles={toggles}"), "ok");
-                        out.count("op:signal");
-                        if all_ok {
-                            if budget < total {
-                                if let Ok(n) = &r {
-                                    out.oracle_fail("signal-succeeds-below-cost", &format!("budget={budget} cost={total} returned=ok {n} toggles={toggles}"));
-                                }
-                            } else if show(&r) != format!("ok {total}") {
-                                out.oracle_fail("signal-differs-with-sufficient-budget", &format!("budget={budget} cost={total} returned={}", show(&r)));
+                        out.op(&format!("note {tag} budget={budget} toggles={toggles}"), "ok");
+                        out.count(&format!("op:{tag}"));
+                        if toggles == 0 {
+                            // no Suspend was ever sent: F4b cannot apply, the run is the one-shot run
+                            out.count("op:signal-without-pause");
+                            let one = c.v.verify(budget);
+                            if payload(&r) != payload(&one) {
+                                out.oracle_fail("signal-without-pause-differs-from-verify", &format!("budget={budget} cost={need} verify=[{}] signal=[{}] via_ctx={via_ctx}", payload(&one), payload(&r)));
                             }
-                        } else if budget == u64::MAX && show(&r) != show(&one) {
-                            out.oracle_fail("signal-differs-from-oneshot", &format!("oneshot={} signal={}", show(&one), show(&r)));
+                        }
+                        if budget < need {
+                            if let Ok(n) = &r {
+                                if toggles > 0 {
+                                    out.oracle_fail("signal-succeeds-below-cost", &format!("budget={budget} cost={need} returned=ok {n} toggles={toggles}"));
+                                }
+                            }
+                        } else if payload(&r) != c.unlimited {
+                            let class = if c.all_ok { "signal-differs-with-sufficient-budget" } else { "signal-differs-from-oneshot" };
+                            out.oracle_fail(class, &format!("budget={budget} cost={need} oneshot=[{}] signal=[{}] via_ctx={via_ctx}", c.unlimited, payload(&r)));
                         }
                     }
+                }
+                if std::env::var("VERIF_SHOW_PANIC").is_ok() {
+                    eprintln!("case {} ({} ops) {:?}", p.name, lines.len(), t0.elapsed());
                 }
             }
         }
     }
     out.extra.insert("programs_skipped".into(), serde_json::json!(skipped));
-    out.finish("a chunk schedule is non-trivial if the run was suspended at least once (fingerprint: schedule shape / number of rounds); every suspend+complete pair (fingerprint: suspended group index / result class)");
+    out.finish("a chunk schedule is non-trivial if the run was suspended at least once (fingerprint: schedule shape / number of rounds); every suspend+complete pair (fingerprint: entry point / suspended group index / result class); every resumable_verify call that suspends (fingerprint: group) and every suspend + resume_from_state pair (fingerprint: group / result class)");
 }
